@@ -79,6 +79,25 @@ fn case_strategy(depth: u32, size: u32) -> BoxedStrategy<Case> {
         gen::state(&p),
     )
         .prop_map(|(name, t, u0, w0, pick_u, pick_w, mode, idx0, rest, other)| {
+            // Instructions defined structurally (Item::equals) must tell apart floats that only
+            // PRINT alike (1.5001 / 1.5004 both print 1.500); `=` and DISCREPANCY compare printed
+            // forms by (pinned) design and keep the injective pool.
+            let structural = matches!(name, "CODE.SUBST" | "CODE.POSITION" | "CODE.CONTAINER" | "CODE.CONTAINS" | "CODE.MEMBER");
+            let near = |t: ItemSpec, salt: u16| -> ItemSpec {
+                fn go(t: &ItemSpec, salt: u16, k: &mut u16) -> ItemSpec {
+                    match t {
+                        ItemSpec::List(v) => ItemSpec::List(v.iter().map(|x| go(x, salt, k)).collect()),
+                        ItemSpec::Float(f) => {
+                            *k = k.wrapping_add(1);
+                            ItemSpec::Float(*f + 0.0001 * (((salt.wrapping_add(*k)) % 4) as f32))
+                        }
+                        x => x.clone(),
+                    }
+                }
+                let mut k = 0u16;
+                go(&t, salt, &mut k)
+            };
+            let (t, u0, w0) = if structural && mode % 2 == 1 { (near(t, pick_u), near(u0, pick_w), near(w0, pick_u ^ pick_w)) } else { (t, u0, w0) };
             let pre: Vec<ItemSpec> = t.preorder().into_iter().cloned().collect();
             let s = pre.len() as i32;
             // pattern present (a sub-item of t) in ~60 % of the cases, fresh otherwise
